@@ -177,3 +177,8 @@ Definition sx_c08hyp5 (indep disj sym kn ko : bool) : sx := SL [sx_bool indep; s
 Definition sx_c08hyp11 (indep disj sym kn ko nc nt s2 ordr of1 of2 : bool) : sx :=
   SL [sx_bool indep; sx_bool disj; sx_bool sym; sx_bool kn; sx_bool ko; sx_bool nc; sx_bool nt; sx_bool s2;
       sx_bool ordr; sx_bool of1; sx_bool of2].
+
+(* + [indep_verified (reverse d)]: guard of C08_sub_detects_corruption / _type *)
+Definition sx_c08hyp12 (indep disj sym kn ko nc nt s2 ordr of1 of2 indr : bool) : sx :=
+  SL [sx_bool indep; sx_bool disj; sx_bool sym; sx_bool kn; sx_bool ko; sx_bool nc; sx_bool nt; sx_bool s2;
+      sx_bool ordr; sx_bool of1; sx_bool of2; sx_bool indr].
